@@ -516,6 +516,12 @@ pub fn child_main(args: &[String]) -> i32 {
     rep["stuck"] = json!(!done);
     rep["completed"] = json!(finished_ok);
     // registries outside the write set must hold exactly the built-in names (+ pre-registrations)
+    // (only after a complete run: after a deadlock the registries are still locked by the
+    // threads that wait for each other)
+    if !finished_ok {
+        println!("CHILD-RESULT {}", rep);
+        std::process::exit(0);
+    }
     let snap = expression_engine::verif_hooks::snapshot();
     rep["names"] = json!({
         "prefix": snap.prefix.iter().map(|x| x.0.clone()).collect::<Vec<_>>(),
